@@ -31,6 +31,7 @@ def Table.set (t : Table) (c : Nat) (s : PState) : Table := fun x => if x = c th
 /-- scripted behaviour of the daemon for one request (wire forms) -/
 inductive Beh
   | ok     -- behaves like go-ipfs (including its own refusals)
+  | oka    -- (first pin/ls only) truthful, but lists the pin whatever `type=` filter was asked; elsewhere = ok
   | e      -- HTTP 500, IPFS error JSON object, some other message
   | np     -- HTTP 500, IPFS error JSON object, message exactly "not pinned or pinned indirectly"
   | npx    -- HTTP 500, IPFS error JSON object, a near miss of the not-pinned text
@@ -55,6 +56,7 @@ inductive Beh
 /-- what the connector can tell apart -/
 inductive Cls
   | honest      -- 200, effect applied, well-formed body (or go-ipfs' own refusal)
+  | honestAny   -- (first pin/ls only) as honest, the type filter not honoured
   | ipfsErr     -- non-200 + IPFS error object, text not the tolerated one; no effect
   | notPinned   -- non-200 + IPFS error object with exactly the ErrNotPinned text; no effect
   | hardFail    -- non-JSON error reply or connection dropped; no effect
@@ -68,6 +70,7 @@ inductive Cls
 
 def clsOf : Beh → Cls
   | .ok => .honest
+  | .oka => .honestAny
   | .e | .npx | .ap | .jnull => .ipfsErr
   | .np => .notPinned
   | .nj | .empty | .nj4 | .jarr | .d0 | .dcl | .dch => .hardFail
@@ -85,7 +88,14 @@ def clsAt (isAdd : Bool) (b : Beh) : Cls :=
   | .noProgress => if isAdd then .noProgress else .honest
   | .slowOk => if isAdd then .slowOk else .honest
   | .streamErr => if isAdd then .streamErr else .ipfsErr
+  | .honestAny => .honest
   | c => c
+
+/-- class of the answer to the first request of `Pin` / `PinLsCid` (the lookup of the CID itself) -/
+def clsFirst (b : Beh) : Cls :=
+  match clsOf b with
+  | .honestAny => .honestAny
+  | _ => clsAt false b
 
 /-- requests as the daemon sees them (endpoint + the parameters that matter) -/
 inductive Req
@@ -173,10 +183,11 @@ inductive LsRes
   | err
   deriving DecidableEq, Repr
 
-/-- `PinLsCid`: network error ⇒ error; IPFS error object ⇒ unpinned; 200 ⇒ parse -/
-def lsCid (t : Table) (c : Nat) (tr : Bool) (b : Beh) : LsRes :=
-  match clsAt false b with
+/-- `PinLsCid`: network error ⇒ error; IPFS error ⇒ unpinned; 200 ⇒ parse -/
+def lsCid (t : Table) (c : Nat) (tr : Bool) (k : Cls) : LsRes :=
+  match k with
   | .honest => if t c = (if tr then .r else .d) then .status (t c) else .status .u
+  | .honestAny => .status (t c)     -- "not pinned" error ⇒ u; "indirect through …" ⇒ i
   | .ipfsErr | .notPinned => .status .u
   -- a daemon that has nothing to list refuses with its usual error object whatever the wire form
   | .badBody | .lostReply => if t c = (if tr then .r else .d) then .err else .status .u
@@ -229,7 +240,7 @@ def rmCall (t : Table) (c : Nat) (b : Beh) : Res × Table :=
 
 def pin (i : Input) : MOut :=
   let r0 := Req.ls i.cid (typeRec i.depth)
-  match lsCid i.table i.cid (typeRec i.depth) (i.beh 0) with
+  match lsCid i.table i.cid (typeRec i.depth) (clsFirst (i.beh 0)) with
   | .err => ⟨.err, [r0], i.table, 0⟩
   | .status s =>
     if s = asked i.depth then ⟨.ok, [r0], i.table, 0⟩
@@ -241,7 +252,7 @@ def pin (i : Input) : MOut :=
         ⟨x.1, [r0, addReq i.cid i.depth], x.2, sw⟩
       | some f =>
         let r1 := Req.ls f i.modeRec
-        if lsCid i.table f i.modeRec (i.beh 1) = .status .r then
+        if lsCid i.table f i.modeRec (clsAt false (i.beh 1)) = .status .r then
           let x := updCall i.table f i.cid (i.beh 2)
           ⟨x.1, [r0, r1, .upd f i.cid false], x.2, sw⟩
         else
@@ -256,7 +267,7 @@ def unpin (i : Input) : MOut :=
 
 def lsOp (i : Input) : MOut :=
   let r0 := Req.ls i.cid (typeRec i.depth)
-  match lsCid i.table i.cid (typeRec i.depth) (i.beh 0) with
+  match lsCid i.table i.cid (typeRec i.depth) (clsFirst (i.beh 0)) with
   | .err => ⟨.err, [r0], i.table, 0⟩
   | .status s => ⟨.st s, [r0], i.table, 0⟩
 
